@@ -396,7 +396,8 @@ def cache_invalidation_obligations():
     if not obs:
         raise KeyError('no mutating public method of HSpace found')
     # _clear_cache itself: it must reset EVERY memo attribute.  Memo attributes are the private (name-mangled) attributes self.__x that
-    # some method other than _clear_cache assigns; each of them needs an unconditional top-level `self.__x = None` in _clear_cache.
+    # some method other than _clear_cache and __init__ assigns (filled lazily after construction; a private attribute set once in the
+    # constructor is configuration, not a cache); each of them needs an unconditional top-level `self.__x = None` in _clear_cache.
     def private_stores(fn, top_level_only=False):
         out = {}
         nodes = fn.body if top_level_only else list(ast.walk(fn))
@@ -413,7 +414,7 @@ def cache_invalidation_obligations():
         raise KeyError('HSpace._clear_cache not found')
     memo = {}
     for nm, fn in methods.items():
-        if nm != '_clear_cache':
+        if nm not in ('_clear_cache', '__init__'):
             for a_, ln in private_stores(fn).items():
                 memo.setdefault(a_, (nm, ln))
     reset = private_stores(methods['_clear_cache'], top_level_only=True)
